@@ -239,6 +239,10 @@ def run(chk, tier, scale=1.0):
     prun.fold(chk, "C10", ores, crash_is_violation=True)
     chk.require("old_request_lines", 3)
     chk.count("clean_exits_with_leak_check", len(res) + len(lres) + len(tres) - chk.observed.get("daemon_unclean", 0))
+    # the module interface no shipped module uses (set address / host name / user name, challenge, kill, accept, holds ...), driven
+    # through the fixture module site_api and compared line for line with a model of the core (lib/sitemodel.py)
+    import sitemodel
+    sitemodel.fold_site(chk, "C10", tier, scale, 1033, ('C10', 'crash'))
     chk.rule = ("(1) random lock-step histories of 3000 events over 5..500 ids with `? stats` at random points: the reported 'in use' must equal the number of clients "
                 "announced and not withdrawn / registered / decided (re-announcement replaces); (2) one pipelined history of %s events with up to %s concurrent clients; "
                 "(5) the request timeout switched on / off by a reload while requests are live; (4) requests left pending for 11 s (statistics list them as old), then withdrawn one by one with statistics in between; (3) real-timer runs (timeout 1 s): clients finished by D, T, verdict, refusal or replaced by re-announcement, then 1.6 s idle - a timer of a finished request "
@@ -251,4 +255,7 @@ def run(chk, tier, scale=1.0):
 
 
 def replay(chk, rep):
+    if rep["witness"].get("site"):
+        import sitemodel
+        return sitemodel.replay_site(chk, rep["witness"], "C10", ('C10', 'crash'))
     return prun.replay_witness(chk, rep, PROPS)
